@@ -5,6 +5,7 @@ from __future__ import annotations
 import ast
 
 from ..core import AnalysisError, Check, Finding
+from ..repo import qualname_of
 from ..escape_props import run_entry
 from .opsprop import fill
 
@@ -79,6 +80,36 @@ def provenance(check: Check, repo) -> None:
     check.oblige("FAIL-SITE", "src/pest/grammar/expressions/prefix.py::NegativePredicate.parse", "explicit rule_name is Identifier.value / Rule.name / None" if ok else f"explicit rule_name has other sources {sorted(vals)}", bool(ok))
 
 
+def rule_name_pairing(check: Check, repo) -> None:
+    """A call site may pass the empty string for "no particular rule" (the templates do: they have no None to write
+    with !r into a keyword that the interpreter side sets to None); fail() must then treat every falsy rule_name as
+    absent, or '' is listed as an expected/unexpected rule."""
+    empties = []
+    for rel in repo.py_files:
+        m = repo.mod(rel)
+        for n in ast.walk(m.tree):
+            if isinstance(n, ast.Assign) and isinstance(n.value, ast.Constant) and n.value.value == "" and "rule_name" in ast.unparse(n.targets[0]):
+                empties.append(f"{rel}::{qualname_of(m, n)}")
+            if isinstance(n, ast.Call) and isinstance(n.func, ast.Attribute) and n.func.attr == "fail":
+                for k in n.keywords:
+                    if k.arg == "rule_name" and isinstance(k.value, ast.Constant) and k.value.value == "":
+                        empties.append(f"{rel}::{qualname_of(m, n)}")
+    fail = repo.func(STATE_REL, "ParserState.fail")
+    truthy = none_only = False
+    for n in ast.walk(fail):
+        if isinstance(n, ast.BoolOp) and isinstance(n.op, ast.Or) and isinstance(n.values[0], ast.Name) and n.values[0].id == "rule_name":
+            truthy = True
+        if isinstance(n, ast.If) and ast.unparse(n.test) in ("not rule_name",):
+            truthy = True
+        if isinstance(n, ast.Compare) and ast.unparse(n) in ("rule_name is None", "rule_name is not None"):
+            none_only = True
+    check.count("empty_rule_name_sources", len(empties))
+    ok = not empties or (truthy and not none_only)
+    sig = "fail() keeps an empty rule_name although call sites pass '' for 'no particular rule'"
+    check.oblige("FAIL-SITE", f"{STATE_REL}::ParserState.fail", (f"falsy rule_name defaults to the current rule ({len(empties)} site(s) pass '')" if empties else "no call site passes an empty rule_name") if ok else sig, ok,
+                 finding=Finding("FAIL-SITE", f"{STATE_REL}::ParserState.fail", sig, f"{sig}: {sorted(set(empties))[:3]}; the message then lists '' among the expected or unexpected rules", {"sites": sorted(set(empties))}))
+
+
 def run(tier: str) -> Check:
     check = Check("C13", tier, EXPLANATION)
     check.rules = ["FURTHEST", "FAIL-SITE", "FAILLABEL", "FAILPOS", "FRAMES", "NEG", "SUPPRESS", "FAIL-PARITY", "ESCAPE-RENDER", "LINE-OFFSET", "CASE"]
@@ -88,6 +119,7 @@ def run(tier: str) -> Check:
     ]
     repo, _ = fill(check, tier, floors={"parse_paths": 120, "skeleton_paths": 120})
     provenance(check, repo)
+    rule_name_pairing(check, repo)
     for r in RENDER:
         t, _ = run_entry(check, repo, r, set(), "ESCAPE-RENDER")
         check.count("escaping_sites_examined", t)
